@@ -179,3 +179,30 @@ def check(case, stats):
             stats.label("wlhard")
         stats.maximum("max_wl_rounds", rounds)
         stats.mark_nontrivial(case_digest(case), {"mol": mol.brief(), "route": route, "string": base[:200], "pi": case["tfs"][0]["pi"][:24]})
+
+
+def extra(ctx):
+    """Finite sweep over the periodic table: for every pair of neighbouring elements (Z, Z+1)
+    a small asymmetric molecule X(Y)2 / Y(X)2 is described once through the graph constructor
+    (atomic numbers from the own table) and once as a TUCAN string written by own code
+    (blocks of increasing Z by the own table); both descriptions must agree.  A transposition
+    in an element table shows only when both elements occur together."""
+    from ..lib import Violation as V
+    from ..runner import Stats, bucket_of
+
+    stats = Stats()
+    failures = []
+    n_cases = 0
+    for z in range(1, 118):
+        for centre, outer in ((z, z + 1), (z + 1, z)):
+            mol = Mol.simple([centre, outer, outer], [(0, 1), (0, 2)], masses=[0, 0, 0], family="element-pair").to_json()
+            tf = {"pi": [0, 1, 2], "order": [0, 1, 2], "bond_order": [0, 1], "flips": [False, False], "keys": [1, 2, 3], "post": "none"}
+            case = {"mol": mol, "tfs": [tf, dict(tf, pi=[2, 0, 1], order=[1, 2, 0])], "route": "mixed", "style_seed": 0}
+            n_cases += 1
+            try:
+                check(case, stats)
+            except V as e:
+                if len(failures) < 3:
+                    failures.append({"sub": e.sub, "message": e.msg, "details": {}, "case": case, "bucket": list(bucket_of(e))})
+    stats.label("element_pair_sweep_cases", n_cases)
+    return {"failures": failures, "stats": stats.dump(), "info": {"element_pairs_swept": 117}}
